@@ -72,6 +72,63 @@ theorem C27_timer_reopen_restarts (c : Client) (ans : Nat → Nat) (id : Nat)
   obtain ⟨j, n, rr, tt, _, d⟩ := reopenRestart_spec { c with attempts := c.attempts + 1 } none
   exact ⟨j, n, d, by rw [rr]; exact hr, tt⟩
 
+/-- **The first service call at which the reconnect timer has expired and the connection attempt does
+not succeed leaves the just-reopened state** — from *any* unconnected state of a reconnectable client
+(socket open or closed, attempt refused, in progress or timed out). -/
+theorem C27_timer_reopen_restarts_any (c : Client) (ans : Nat → Nat)
+    (ha : c.accepted = false) (hr : c.reconnectable = true) (hn : ¬ isOk (ans (nextAttempt c)))
+    (hf : timerFired c = true) :
+    ∃ id, JustReopened (serviceConnect c ans).1 id ∧ (serviceConnect c ans).1.now = c.now ∧
+      (serviceConnect c ans).1.timer.duration = c.timer.duration ∧
+      (serviceConnect c ans).1.reconnectable = true ∧ (serviceConnect c ans).1.timeout = c.timeout := by
+  obtain ⟨a1, a2, a3, a4, a5⟩ := accept_not_ok c ans hn ha
+  have hna : (!c.accepted) = true := by simp [ha]
+  unfold serviceConnect
+  rw [if_pos hna]
+  generalize accept c ans = r at a1 a2 a3 a4 a5
+  obtain ⟨c1, e1⟩ := r
+  simp only at a1 a2 a3 a4 a5 ⊢
+  have hf1 : timerFired c1 = true := by
+    rw [timerFired_iff] at hf ⊢
+    rw [a2, a3, a4]; exact hf
+  have hcond : (!c1.accepted && c1.reconnectable && timerFired c1) = true := by
+    rw [a1, a5, hr, hf1]; rfl
+  rw [if_pos hcond]
+  obtain ⟨j, n, rr, tt, _, d⟩ := reopenRestart_spec c1 none
+  exact ⟨c1.fresh, j, by rw [n, a2], by rw [d, a4], by rw [rr, a5]; exact hr, by rw [tt, a3]⟩
+
+/-- **End to end, bare client that failed to connect**: reconnectable, not connected (whatever its
+socket's state), a listening server of latency `k`; at the first call at which the reconnect timer has
+expired (round `d0`) the client either connects or reopens, and the next `k` paced calls connect it:
+live after `k + 1` calls. -/
+theorem C27_bare_reconnects_after_timer (k : Nat) (ansOf : Nat → Nat) (c : Client) (d0 : Int) (dts : List Int)
+    (hL : Listening k ansOf) (ha : c.accepted = false) (hr : c.reconnectable = true) (ht : 0 < c.timeout)
+    (he : c.timer.stop ≤ c.now + d0) (hlen : dts.length = k) (hP : Paced c.timer.duration dts) :
+    (runListening ansOf .bare c (d0 :: dts)).live = true := by
+  let c0 : Client := { c with now := c.now + d0 }
+  have hfire : timerFired c0 = true := (timerFired_iff c0).mpr ⟨ht, he⟩
+  have ha0 : c0.accepted = false := ha
+  unfold runListening
+  simp only [Kind.service]
+  rw [show ({ c with now := c.now + d0 } : Client) = c0 from rfl]
+  by_cases hok : isOk (ansOf (nextAttempt c0))
+  · obtain ⟨h1, h2⟩ := serviceConnect_ok c0 ansOf ha0 hok
+    obtain ⟨l1, l2, _⟩ := runListening_live ansOf .bare dts (serviceConnect c0 ansOf).1 h1 h2
+    simp [Client.live, l1, l2]
+  · obtain ⟨id, hj, _, hd, _, _⟩ := C27_timer_reopen_restarts_any c0 ansOf ha0 hr hok hfire
+    have := C27_reconnects_within_partial .bare k ansOf (serviceConnect c0 ansOf).1 id dts hL hj hlen
+      (by rw [hd]; exact hP)
+    simp [Client.live, this.1, this.2.1]
+
+
+/-- a listening server of latency two (EINPROGRESS, then success) -/
+def twoCallServer' (n : Nat) : Nat := if n + 1 ≥ 2 then 0 else 115
+
+/-- non-vacuity: the server was down (refused), comes up; timeout 0.2 s, latency 2 calls, a call every 0.05 s -/
+example :
+    let c := (run (Client.init 205 true) [.clientServiceConnect 111, .advance 100, .clientServiceConnect 111]).1
+    c.accepted = false ∧ (runListening twoCallServer' .bare c [110, 51, 51]).live = true := by decide
+
 /-- **A cut off stack reconnects**: reconnectable handler, cut off; the first call at which the timer
 has expired reopens (round `d0`), the next `k` paced calls connect: `k + 1` calls in all. -/
 theorem C27_stack_reconnects_after_cutoff (k : Nat) (ansOf : Nat → Nat) (c : Client) (d0 : Int) (dts : List Int)
